@@ -162,6 +162,29 @@ def steps(rep):
         hyp = list(s.pc) + [ex.truth(v), M.inst(X, OS), z3.Implies(ign, z3.BoolVal(True))]
         r = pr.prove(hyp, z3.And(ign, M.inst(X, OB)))
         rep.add(f'C19.ClassTypeHint._is_subhint_branch.post.sound.path{i}', r.status, time=r.time, backend=r.backend, where='True only for an unsubscripted (args-ignorable) branch whose origin is a superclass: every instance of self\'s class is an instance of the branch\'s')
+    # ---- LiteralTypeHint._is_subhint against another Literal: any number of members on both sides (quantified any()/all())
+    import beartype.door._cls.pep.doorpep586 as lmod
+    fobj, node, _ = funcmode.load('beartype/door/_cls/pep/doorpep586.py', 'LiteralTypeHint._is_subhint')
+    OTHER = z3.Const('other', M.Obj); SA, OA = z3.Select(F('_args'), SELF), z3.Select(F('_args'), OTHER)
+    def m_isinst_lit(ex_, s, f, a, kw, w):
+        if isinstance(a[0], VObj) and a[0].t.eq(OTHER) and isinstance(a[1], VPy) and a[1].o is lmod.LiteralTypeHint: return [(s, VBool(z3.BoolVal(True)))]
+        return Exec.b_isinstance(ex_, s, a, kw, w)
+    ex = Exec(uni, dict(lmod.__dict__), call_model={isinstance: m_isinst_lit}, name='literal'); ex.fields_mode = True; ex.quantify_allany = True
+    pre = (M.inst(SA, uni.const(tuple)), M.inst(OA, uni.const(tuple)))
+    try: outs = ex.run_function(node, St((), pre), (VObj(SELF), VObj(OTHER)), {}, fobj)
+    except symx.Unsupported as e: rep.error(f'C19.LiteralTypeHint: unsupported: {e}'); outs = []
+    m_, n_, x2 = z3.Consts('lit_a lit_b lit_x', M.Obj)
+    def lit_mean(args, x): return z3.Exists([m_], z3.And(M.mem(args, m_), M.typeof(x) == M.typeof(m_), M.eq(x, m_)))      # PEP 586: equal to a member AND of that member's type
+    # == restricted to one exact class is transitive for the classes PEP 586 allows as members (int, bool, str, bytes, enum members, None)
+    trans = z3.ForAll([m_, n_, x2], z3.Implies(z3.And(M.typeof(x2) == M.typeof(m_), M.typeof(m_) == M.typeof(n_), M.eq(x2, m_), M.eq(m_, n_)), M.eq(x2, n_)))
+    pr = discharge.Prover(uni.axioms() + [trans])
+    for ob in ex.obls:
+        r = pr.prove(list(ob.pc), ob.goal); rep.add(f'C19.LiteralTypeHint.{ob.kind}#{ob.name.rsplit(".", 1)[-1]}', r.status, time=r.time, backend=r.backend, where=ob.where)
+    for i, (s, v) in enumerate(outs):
+        r = pr.prove(list(s.pc) + [ex.truth(v), lit_mean(SA, X)], lit_mean(OA, X))
+        rep.add(f'C19.LiteralTypeHint._is_subhint.post.sound_vs_literal.path{i}', r.status, time=r.time, backend=r.backend, reason=r.reason,
+                where='Literal[a...] <= Literal[b...] only if every object equal to (and of the type of) some a is equal to (and of the type of) some b; any number of members')
+    if not outs: rep.error('C19.LiteralTypeHint: no path')
     # ---- TupleFixedTypeHint._is_subhint_branch vs another fixed tuple, per arity
     import beartype.door._cls.pep.pep484585.doorpep484585tuple as tmod
     fobj, node, _ = funcmode.load('beartype/door/_cls/pep/pep484585/doorpep484585tuple.py', 'TupleFixedTypeHint._is_subhint_branch')
